@@ -349,6 +349,7 @@ type Clause struct {
 	Props []string // property tags
 	Label string
 	Text  string
+	Only  string // restrict to one behaviour ("@name" prefix)
 }
 
 type LoopSpec struct {
@@ -467,6 +468,14 @@ func ParseSpecLines(pkg, file string, lines []string, lineNos []int) (*SpecFile,
 		parseClause := func(kind string) (*Clause, error) {
 			c := &Clause{Kind: kind, Text: rest}
 			r := rest
+			if strings.HasPrefix(r, "@") {
+				j := strings.IndexAny(r, " \t")
+				if j < 0 {
+					return nil, errf(n, "bad @behaviour prefix")
+				}
+				c.Only = r[1:j]
+				r = strings.TrimSpace(r[j+1:])
+			}
 			if strings.HasPrefix(r, "[") {
 				j := strings.Index(r, "]")
 				if j < 0 {
